@@ -37,7 +37,8 @@ TRUSTED = ["hand-written Gallina model coq/Model/C12.v (util layer + origin plum
            "intermediate quotients are not dyadic are skipped and counted)"]
 ASSUMPTIONS = ["real arithmetic (no rounding): theorems over R, correspondence on exactly representable inputs",
                "radial projection is modelled at angle = 0 (arctan2(0, s) = 0 for s >= 0); other angles: metamorphic relation with tolerance",
-               "Hilbert mesh, Delaunay mapper, border relocation: metamorphic relation on the implementation only (tolerance 1e-9)"]
+               "Hilbert mesh and Delaunay mapper: metamorphic relation on the implementation only (tolerance 1e-7 / 1e-9); border "
+               "relocation: model vs implementation and relation with tolerance 1e-9, decisions kept at an exact margin 1e-6"]
 
 PS = [F(1, 4), F(1, 2), F(1), F(3, 2), F(2), F(3)]
 SKIPPED = {"inexact": 0}
@@ -131,7 +132,7 @@ GRID_OPS = ["from_mask", "dg_all_false", "dg_unmasked", "dg_edge", "dg_border", 
             "ds_apply_mask", "ds_noise_scaling", "ds_over_sampling", "ds_trimmed", "ds_simulate", "ds_s2n"]
 
 def gen_inputs(tier, rng):
-    n = 1500 if tier == "thorough" else 40
+    n = 1100 if tier == "thorough" else 40
     for i in range(n):
         for op in GRID_OPS:
             H, W = rng.randint(1, 7), rng.randint(1, 8)
@@ -144,9 +145,9 @@ def gen_inputs(tier, rng):
             m = rand_mask(rng, H, W, style)
             inp = {"op": op, "m": m, "ps": S(ps), "o": S(o), "d": S(d), "seed": rng.randrange(10 ** 9)}
             yield inp
-    k = 30 if tier == "thorough" else 3
-    for i in range(k):
-        for op in sorted(SPECIAL):
+    counts = {"hilbert_geometry": 3, "hilbert_mesh": 2, "delaunay_mapper": 4, "relocate": 14, "radial_angle": 4}
+    for op in sorted(SPECIAL):
+        for i in range(counts.get(op, 3) * (10 if tier == "thorough" else 1)):
             ps, o, d = rand_frame(rng)
             yield {"op": op, "ps": S(ps), "o": S(o), "d": S(d), "seed": rng.randrange(10 ** 9)}
 
@@ -604,37 +605,38 @@ def sp_relocate(aa, inp, ps, o, d, rng):
     H, W = rng.randint(3, 6), rng.randint(3, 6)
     m = rand_mask(rng, H, W, rng.choice(["random", "full", "ring"]))
     sub = rng.choice([1, 2])
-    out = []; skip = False
+    out = []; skip = False; obs = []
     pert = None
     for oo in (o, padd(o, d)):
         mask = mk_mask(aa, m, ps, oo)
         br = aa.BorderRelocator(mask=mask, sub_size=sub)
         sg = np.asarray(br.sub_grid, dtype=float)
         if pert is None:
-            pert = np.array([[float(ps[0] * F(2 * rng.randint(-40, 40) + 1, 32)) if rng.random() < 0.5 else 0.0,
-                              float(ps[1] * F(2 * rng.randint(-40, 40) + 1, 32)) if rng.random() < 0.5 else 0.0] for _ in range(sg.shape[0])])
-            # exact decision margins at origin o (a grid point that IS the border point it is compared with is an exact tie
-            # computed twice by the same float expression: safe)
+            pp = rng.choice([1.0, 1.0, 0.8, 0.5])      # fraction of deflected coordinates (undeflected symmetric points tie in argmin)
+            pert = np.array([[float(ps[0] * F(2 * rng.randint(-40, 40) + 1, 32)) if rng.random() < pp else 0.0,
+                              float(ps[1] * F(2 * rng.randint(-40, 40) + 1, 32)) if rng.random() < pp else 0.0] for _ in range(sg.shape[0])])
+            # The only discontinuous decision is the argmin over border points (computed exactly: squared distances of dyadic
+            # points); an exact tie between border points of different radius is skipped.  The two radius comparisons
+            # (r > min border radius, move_factor < 1) are continuous at their boundary (move_factor = 1 is the identity), so a
+            # flipped comparison changes the result by rounding error only, inside the tolerance.
             g = [(fr(a) + fr(pa), fr(b) + fr(pb)) for (a, b), (pa, pb) in zip(sg, pert)]
             bidx = [int(i) for i in br.sub_border_slim]
             if bidx:
                 bg = [g[i] for i in bidx]
                 bo = (sum(p[0] for p in bg) / len(bg), sum(p[1] for p in bg) / len(bg))
                 r2 = lambda p: (p[0] - bo[0]) ** 2 + (p[1] - bo[1]) ** 2
-                bmin = min(r2(p) for p in bg)
-                eps = F(1, 10 ** 6)
                 for p in g:
-                    if abs(r2(p) - bmin) < eps and not (p in bg and r2(p) == bmin and [r2(q) for q in bg].count(bmin) == 1): skip = True
                     dist = [(p[0] - q[0]) ** 2 + (p[1] - q[1]) ** 2 for q in bg]
-                    c = dist.index(min(dist))
                     if len({r2(q) for q, dd_ in zip(bg, dist) if dd_ == min(dist)}) > 1: skip = True
-                    if abs(r2(bg[c]) - r2(p)) < eps and p != bg[c]: skip = True
-        out.append(np.asarray(br.relocated_grid_from(grid=aa.Grid2DIrregular(values=sg + pert)), dtype=float))
+        gin = sg + pert
+        res_ = np.asarray(br.relocated_grid_from(grid=aa.Grid2DIrregular(values=gin)), dtype=float)
+        out.append(res_)
+        obs.append(f"(KReloc {clist([cnat(i) for i in br.sub_border_slim])} {cgrid(grid_out(gin))} {cgrid(grid_out(res_))})")
     if skip:
         SKIPPED["inexact"] += 1
         return {"coq": None, "py_ok": None, "kind": "relocate:skipped-margin", "nontrivial": False, "out": "skipped"}
     ok = close_grids(out[0], out[1], d, 1e-9)
-    return {"coq": None, "py_ok": ok, "kind": "relocate", "nontrivial": True,
+    return {"coq": f"(KPair {cpt(d)} {obs[0]} {obs[1]})", "py_ok": ok, "kind": "relocate", "nontrivial": True,
             "out": {"mask": m, "sub": sub, "at_o": out[0][:3].tolist(), "at_o_plus_d": out[1][:3].tolist()}}
 
 def sp_radial_angle(aa, inp, ps, o, d, rng):
